@@ -27,8 +27,12 @@ func Harness_C19_next() {
 			vr.Assume(ents[j].Name != name)
 		}
 		kind := 0
-		for k := 0; k < 3; k++ { // concrete kind per path
-			if vr.Int(vr.T("entry", i, ".kind"), 0, 3) == k+1 {
+		maxKind := 3
+		if vr.Param("LINKS", 0) == 1 {
+			maxKind = 4 // also symbolic links to readable files (which count as good files)
+		}
+		for k := 0; k < maxKind; k++ { // concrete kind per path
+			if vr.Int(vr.T("entry", i, ".kind"), 0, maxKind) == k+1 {
 				kind = k + 1
 			}
 		}
@@ -55,7 +59,7 @@ func Harness_C19_next() {
 	// expected: the good entries in ascending name order
 	var good []int
 	for i := range ents {
-		if ents[i].Kind == 0 {
+		if ents[i].Kind == 0 || ents[i].Kind == 4 {
 			good = append(good, i)
 		}
 	}
